@@ -304,6 +304,9 @@ def run(ctx):
                                            root_kind=rng.choice(["block", "inline"]), max_children=3)
         bi += 1
         base = gen.unshare(base)  # positions are addressed by path: no node may sit at two paths
+        for x_ in gen.walk(base):
+            if x_.get("how") == "displayed":
+                x_["how"] = "ctor"   # (displayed self-rendering metadata would become markup, see the display route below)
         pts = insertion_points(base)
         is_list = base["k"] == "list"
         b_ = gen.build_root(base)
